@@ -204,8 +204,8 @@ class Sky130Walker(h.HierarchyWalker):
     def mos_module_call(self, params: MosParams) -> h.ExternalModuleCall:
         """Retrieve or create a `Call` for MOS parameters `params`."""
         # First check our cache
-        if params in CACHE.mos_modcalls:
-            return CACHE.mos_modcalls[params]
+        if params in self.mos_modcalls:
+            return self.mos_modcalls[params]
 
         # Not found; create a new `ExternalModuleCall`.
         # First retrieve the `ExternalModule`.
@@ -229,7 +229,7 @@ class Sky130Walker(h.HierarchyWalker):
 
         # Combine the two into a call, cache and return it
         modcall = mod(modparams)
-        CACHE.mos_modcalls[params] = modcall
+        self.mos_modcalls[params] = modcall
         return modcall
 
     def res_module(self, params: PhysicalResistorParams):
@@ -244,8 +244,8 @@ class Sky130Walker(h.HierarchyWalker):
 
     def res_module_call(self, params: PhysicalResistorParams):
         # First check our cache
-        if params in CACHE.res_modcalls:
-            return CACHE.res_modcalls[params]
+        if params in self.res_modcalls:
+            return self.res_modcalls[params]
 
         mod = self.res_module(params)
 
@@ -260,7 +260,7 @@ class Sky130Walker(h.HierarchyWalker):
             modparams = Sky130PrecResParams(l=l)
 
         modcall = mod(modparams)
-        CACHE.res_modcalls[params] = modcall
+        self.res_modcalls[params] = modcall
         return modcall
 
     def cap_module(self, params: Any):
@@ -274,8 +274,8 @@ class Sky130Walker(h.HierarchyWalker):
         return mod
 
     def cap_module_call(self, params: PhysicalCapacitorParams):
-        if params in CACHE.cap_modcalls:
-            return CACHE.cap_modcalls[params]
+        if params in self.cap_modcalls:
+            return self.cap_modcalls[params]
 
         mod = self.cap_module(params)
 
@@ -293,7 +293,7 @@ class Sky130Walker(h.HierarchyWalker):
             modparams = Sky130VarParams(w=w, l=l, vm=m)
 
         modcall = mod(modparams)
-        CACHE.cap_modcalls[params] = modcall
+        self.cap_modcalls[params] = modcall
         return modcall
 
     def diode_module(self, params: DiodeParams):
@@ -307,8 +307,8 @@ class Sky130Walker(h.HierarchyWalker):
         return mod
 
     def diode_module_call(self, params: DiodeParams):
-        if params in CACHE.diode_modcalls:
-            return CACHE.diode_modcalls[params]
+        if params in self.diode_modcalls:
+            return self.diode_modcalls[params]
 
         mod = self.diode_module(params)
 
@@ -322,7 +322,7 @@ class Sky130Walker(h.HierarchyWalker):
             modparams = Sky130DiodeParams()
 
         modcall = mod(modparams)
-        CACHE.diode_modcalls[params] = modcall
+        self.diode_modcalls[params] = modcall
         return modcall
 
     def bjt_module(self, params: BipolarParams):
@@ -336,8 +336,8 @@ class Sky130Walker(h.HierarchyWalker):
         return mod
 
     def bjt_module_call(self, params: BipolarParams):
-        if params in CACHE.bjt_modcalls:
-            return CACHE.bjt_modcalls[params]
+        if params in self.bjt_modcalls:
+            return self.bjt_modcalls[params]
 
         mod = self.bjt_module(params)
 
@@ -349,7 +349,7 @@ class Sky130Walker(h.HierarchyWalker):
         modparams = Sky130BipolarParams(m=mult)
 
         modcall = mod(modparams)
-        CACHE.bjt_modcalls[params] = modcall
+        self.bjt_modcalls[params] = modcall
         return modcall
 
     def scale_param(self, orig: Optional[h.Scalar], default: h.Prefixed) -> h.Scalar:
